@@ -48,6 +48,11 @@ CHECKS = {
    text="Every DBSCAN/OPTICS run of the real code is judged against the density-clustering definition recomputed by brute force in the element type, and the three neighbour indices must give equal outputs. Tolerances strictly between inter-point distances are decided strictly; tolerances exactly on an inter-point distance (exact-arithmetic data only) accept either reading but the same one for all indices. All point sequences up to n=7 over 5 positions (1-D) and small 2-D grids are enumerated.",
    note="Trusts the harness distance formulas; a generic-tolerance case with a pair inside the 4(p+2)eps band is inconclusive. Zero-feature input is an ambiguity class (both 'all noise' and 'one cluster' accepted). OPTICS ordering optimality is outside the property text.",
    ref="DESIGN.md §5 C08"),
+ "C09": dict(
+   technique="runtime monitor: brute-force nearest-centroid oracle on training and fresh points, trajectory replay (iterate m must be the documented mean-with-old-centroid update of iterate m-1, obtained through max_n_iterations = 1..M from precomputed centroids), restart/inertia monotonicity, complete enumeration of small 1-D/2-D scopes",
+   text="Each k-means fit of the real code is judged in f64: shape/finiteness/bounding box, predict = admissible arg-min and transform = minimal reduced distance (training, fresh and tie points), every iterate of a trajectory equals the documented update of the previous one with counts/inertia of that assignment, L2 cost non-increasing, more restarts never raise the inertia, counts describe the returned centroids. All multisets over small lattices x every k x every ordered choice of initial rows are enumerated.",
+   note="Trusts the harness distance/update arithmetic; ties are resolved by enumerating admissible assignments (<= 4096, else inconclusive). The cost increase of the mean update under non-L2 metrics is a recorded known finding with a discriminating signature; k-means|| is judged per model only.",
+   ref="DESIGN.md §5 C09"),
 }
 
 NOT_YET = {}
